@@ -78,6 +78,10 @@ type Sig struct {
 	Avails   byte
 	Descs    []SegDesc
 	Stuffing int // alignment_stuffing bytes before the CRC (0 for canonical sections)
+	// LegacyCmdLen writes splice_command_length as 0xFFF ("not given", the encoding of older equipment).
+	LegacyCmdLen bool
+	// Skipped are the Ptr bytes the pointer_field points over (the tail of a previous section); 0xFF when nil.
+	Skipped []byte
 }
 
 func SpliceTime(has bool, pts uint64) []byte {
@@ -217,6 +221,10 @@ func (s *Sig) Section() []byte {
 	}
 	body := []byte{0x00, b1, byte(s.PTSAdj >> 24), byte(s.PTSAdj >> 16), byte(s.PTSAdj >> 8), byte(s.PTSAdj), s.CW,
 		byte(s.Tier >> 4), byte(s.Tier<<4) | byte(len(cmd)>>8)&0x0f, byte(len(cmd)), s.Cmd}
+	if s.LegacyCmdLen {
+		body[8] |= 0x0f
+		body[9] = 0xff
+	}
 	body = append(body, cmd...)
 	body = append(body, byte(len(dl)>>8), byte(len(dl)))
 	body = append(body, dl...)
@@ -229,7 +237,13 @@ func (s *Sig) Section() []byte {
 }
 
 // Payload is pointer_field + filler + section.
-func (s *Sig) Payload() []byte { return append(PointerPrefix(s.Ptr), s.Section()...) }
+func (s *Sig) Payload() []byte {
+	p := PointerPrefix(s.Ptr)
+	if len(s.Skipped) == s.Ptr {
+		copy(p[1:], s.Skipped)
+	}
+	return append(p, s.Section()...)
+}
 
 // CommandHasTime reports whether the command carries a pts_time the signal
 // PTS is derived from, and that time.
@@ -358,7 +372,12 @@ func GenSig(r *gen.Rand, allowForeign bool) Sig {
 	s.Out, s.Prog, s.HasDur, s.Imm = r.Bool(), r.Bool(), r.Bool(), r.Bool()
 	s.InsHas, s.InsPTS = true, r.U33()
 	if !s.Prog {
-		for i := r.Intn(4); i > 0; i-- {
+		n := r.Intn(4)
+		if r.Chance(10) {
+			// component_count is 8 bits wide; from 41 timed components on the command is longer than 255 bytes
+			n = r.PickInt([]int{40, 41, 42, 43, 64, 100, 127, 128, 254, 255})
+		}
+		for i := n; i > 0; i-- {
 			s.Comps = append(s.Comps, InsComp{r.Byte(), !r.Chance(3), r.U33()})
 		}
 	}
